@@ -55,6 +55,8 @@ AllSenders == {<<>>, <<115>>, <<97, 32, 98>>, <<97, 9, 98>>, <<97, 10, 98>>, <<3
 OldEntry == <<70,114,111,109,32,111,32,68,10, 62,70,114,111,109,32,120,10, 10>>       \* "From o D\n>From x\n\n"
 OldMboxo == <<70,114,111,109,32,111,32,68,10, 120,10>>                                \* "From o D\nx\n" (no blank line)
 AllBefores == {<<>>, OldEntry, OldMboxo}
+SendersQ == {<<>>, <<97, 32, 98>>, <<97, 10, 98>>}
+BeforesQ == {<<>>, OldEntry}
 \* fixed inputs of the concurrency runs: a From_ line in the body, a partial last line, an empty message
 FixMsg == << <<70,114,111,109,32,120,10,120,10>>, <<120,10,62,70,114,111,109,32,120>>, <<>> >>
 FixSnd == << <<97, 32, 98>>, <<>>, <<115>> >>
